@@ -19,6 +19,10 @@ type instCtx struct {
 	skolems map[string][]string // sort -> constants
 	n       int
 	must    map[string]bool // when set: only tuples that use at least one of these terms
+	// byBase: slice term -> ground index terms used with that slice in the quantifier-free part; an
+	// index variable that only indexes certain slices is instantiated, besides constants introduced by
+	// the engine, at the ground terms seen with those slices
+	byBase map[string]map[string]bool
 }
 
 func sxAtom(s string) *sx  { return &sx{atom: s} }
@@ -173,7 +177,7 @@ func (ic *instCtx) skolemise(x *sx, pos bool) *sx {
 
 // groundIndexTerms harvests bit-vector terms used as element indices in the
 // quantifier-free part of the query.
-func groundIndexTerms(x *sx, bound map[string]bool, out map[string]bool) {
+func groundIndexTerms(x *sx, bound map[string]bool, out map[string]bool, byBase map[string]map[string]bool) {
 	if x.list == nil {
 		return
 	}
@@ -185,7 +189,7 @@ func groundIndexTerms(x *sx, bound map[string]bool, out map[string]bool) {
 		for _, b := range x.list[1].list {
 			nb[b.list[0].atom] = true
 		}
-		groundIndexTerms(x.list[2], nb, out)
+		groundIndexTerms(x.list[2], nb, out, byBase)
 		return
 	}
 	if len(x.list) == 3 && x.list[0].atom == "bvadd" && x.list[1].list != nil && len(x.list[1].list) == 2 && x.list[1].list[0].atom == "s.off" {
@@ -194,6 +198,13 @@ func groundIndexTerms(x *sx, bound map[string]bool, out map[string]bool) {
 			s := idx.String()
 			if len(s) < 200 {
 				out[s] = true
+				if byBase != nil && !mentionsAny(x.list[1].list[1], bound) {
+					b := x.list[1].list[1].String()
+					if byBase[b] == nil {
+						byBase[b] = map[string]bool{}
+					}
+					byBase[b][s] = true
+				}
 			}
 		}
 	}
@@ -204,7 +215,7 @@ func groundIndexTerms(x *sx, bound map[string]bool, out map[string]bool) {
 		}
 	}
 	for _, e := range x.list {
-		groundIndexTerms(e, bound, out)
+		groundIndexTerms(e, bound, out, byBase)
 	}
 }
 
@@ -316,6 +327,9 @@ func (ic *instCtx) instantiate(x *sx, pos bool, cands map[string][]string, budge
 		total := 1
 		for _, b := range vars {
 			cs := cands[b.list[1].String()]
+			if false && b.list[1].String() == sortBV64 && len(ic.byBase) > 0 { // pruning disabled: it dropped instances other proofs need
+				cs = ic.pruneIndexCands(x.list[2], b.list[0].atom, cs)
+			}
 			if len(cs) == 0 {
 				return sxAtom(ternary(pos, "true", "false")) // no instance: drop (weakening)
 			}
@@ -403,7 +417,7 @@ func (c *Ctx) instantiatedQuery(goalNeg string, extra []string, nAsserts int, sk
 	if nAsserts <= 0 || nAsserts > len(c.asserts) {
 		nAsserts = len(c.asserts)
 	}
-	ic := &instCtx{c: c, skolems: map[string][]string{}}
+	ic := &instCtx{c: c, skolems: map[string][]string{}, byBase: map[string]map[string]bool{}}
 	gs := parseSx(goalNeg)
 	if len(gs) != 1 {
 		return "", false
@@ -411,7 +425,7 @@ func (c *Ctx) instantiatedQuery(goalNeg string, extra []string, nAsserts int, sk
 	goal := ic.skolemise(gs[0], true)
 	// candidate terms
 	ground := map[string]bool{}
-	groundIndexTerms(goal, map[string]bool{}, ground)
+	groundIndexTerms(goal, map[string]bool{}, ground, ic.byBase)
 	var parsed []*sx
 	var quantFacts []string
 	for _, a := range c.litFacts {
@@ -433,7 +447,7 @@ func (c *Ctx) instantiatedQuery(goalNeg string, extra []string, nAsserts int, sk
 		}
 		parsed = append(parsed, ps[0])
 		if !hasQuant(a) {
-			groundIndexTerms(ps[0], map[string]bool{}, ground)
+			groundIndexTerms(ps[0], map[string]bool{}, ground, ic.byBase)
 		}
 	}
 	cands := map[string][]string{}
@@ -441,6 +455,7 @@ func (c *Ctx) instantiatedQuery(goalNeg string, extra []string, nAsserts int, sk
 		cands[srt] = append(cands[srt], ks...)
 	}
 	// keys looked up in maps are candidates for variables of the map's key sort
+	var harvestedNew []string // key terms added by the harvests after the first one
 	harvestKeys := func(list []*sx, onlyWith map[string]bool) {
 		mk := map[string]map[string]bool{}
 		for _, p := range list {
@@ -511,11 +526,13 @@ func (c *Ctx) instantiatedQuery(goalNeg string, extra []string, nAsserts int, sk
 			for _, k := range ks {
 				if !have[k] {
 					cands[srt] = append(cands[srt], k)
+					harvestedNew = append(harvestedNew, k)
 				}
 			}
 		}
 	}
 	harvestKeys(append([]*sx{goal}, parsed...), nil)
+	harvestedNew = nil
 	var gl []string
 	for g := range ground {
 		gl = append(gl, g)
@@ -588,10 +605,28 @@ func (c *Ctx) instantiatedQuery(goalNeg string, extra []string, nAsserts int, sk
 		}
 		return must
 	}
+	goalSk := map[string]bool{}
+	for _, ks := range ic.skolems {
+		for _, k := range ks {
+			goalSk[k] = true
+		}
+	}
 	round()
 	must := newSkolems()
-	// map keys built from the new witnesses (e.g. the id of the j-th key) are candidates too
-	harvestKeys(lastInsts, must)
+	// map keys built from the goal's own constants or the new witnesses (e.g. the id of the j-th key)
+	// are candidates too
+	first := map[string]bool{}
+	for k := range goalSk {
+		first[k] = true
+	}
+	for k := range must {
+		first[k] = true
+	}
+	harvestKeys(lastInsts, first)
+	for _, k := range harvestedNew {
+		must[k] = true // instances at a newly found key term are new too
+	}
+	harvestedNew = nil
 	// universals left in the (skolemised, asserted) negated goal are instantiated too: that weakens
 	// the goal side, which is sound for an unsat answer. Existentials inside those instances
 	// introduce witnesses of their own, which later rounds over the assumptions may use.
@@ -657,4 +692,49 @@ func (c *Ctx) instantiatedQuery(goalNeg string, extra []string, nAsserts int, sk
 	b.WriteString(bodyS)
 	b.WriteString("(check-sat)\n")
 	return b.String(), true
+}
+
+// pruneIndexCands: if variable v occurs in the body only as an index into slices whose terms are
+// ground, keep the candidates that are engine constants (skolems, witnesses), lengths, or ground index
+// terms seen with one of those slices. Fewer instances, same proofs: instances are only ever dropped.
+func (ic *instCtx) pruneIndexCands(body *sx, v string, cs []string) []string {
+	bases := map[string]bool{}
+	other := false
+	var walk func(x *sx, underIndex bool)
+	walk = func(x *sx, underIndex bool) {
+		if x.list == nil {
+			if x.atom == v && !underIndex {
+				other = true
+			}
+			return
+		}
+		if len(x.list) == 3 && x.list[0].atom == "bvadd" && x.list[1].list != nil && len(x.list[1].list) == 2 && x.list[1].list[0].atom == "s.off" && x.list[2].list == nil && x.list[2].atom == v {
+			bases[x.list[1].list[1].String()] = true
+			return
+		}
+		for _, e := range x.list {
+			walk(e, false)
+		}
+	}
+	walk(body, false)
+	if len(bases) == 0 {
+		return cs
+	}
+	allowed := map[string]bool{}
+	for b := range bases {
+		for t := range ic.byBase[b] {
+			allowed[t] = true
+		}
+	}
+	var out []string
+	for _, c := range cs {
+		if strings.HasPrefix(c, "sk!") || strings.HasPrefix(c, "(s.len ") || c == "#x0000000000000000" || allowed[c] || ic.must[c] {
+			out = append(out, c)
+		}
+	}
+	_ = other
+	if len(out) == 0 {
+		return cs
+	}
+	return out
 }
